@@ -7,4 +7,5 @@ NoFaults    == {}
 ReadFaults  == {"List", "Load"}
 AllFaults   == {"List", "Load", "Save", "Remove"}
 WriteFaults == {"Save", "Remove"}
+C13Faults   == {"List", "Save", "SaveAfter", "Remove"}
 =============================================================================
